@@ -262,10 +262,10 @@ func c10GenNet(t *rapid.T) c10Net {
 // weighted op kinds per generation-time pod state (the generator tracks which pods exist,
 // which is determined by the harness' own pod actions; mid actions are ignored there)
 var c10KindsByState = map[string][]string{
-	"absent":      {"create", "create", "create", "create", "create", "rr", "rpod", "rpod", "reni", "reni", "gccr"},
-	"alive":       {"rr", "rr", "rr", "rpod", "rpod", "rpod", "reni", "reni", "reni", "gone", "gone", "delete", "exit", "gccr", "gcsec", "gcmem"},
-	"terminating": {"rr", "rpod", "rpod", "reni", "reni", "gone", "gone", "gone", "exit", "gccr"},
-	"exited":      {"rr", "rr", "rpod", "rpod", "reni", "reni", "gone", "gone", "gone", "delete", "gccr"},
+	"absent":      {"create", "create", "create", "create", "create", "rr", "rpod", "rpod", "reni", "reni", "gccr", "node"},
+	"alive":       {"rr", "rr", "rr", "rpod", "rpod", "rpod", "reni", "reni", "reni", "gone", "gone", "delete", "exit", "gccr", "gccr", "gcsec", "gcmem", "node", "node"},
+	"terminating": {"rr", "rpod", "rpod", "reni", "reni", "gone", "gone", "gone", "exit", "gccr", "node"},
+	"exited":      {"rr", "rr", "rpod", "rpod", "reni", "reni", "gone", "gone", "gone", "delete", "gccr", "node"},
 }
 
 var c10Bundles = [][2]uint16{
@@ -343,7 +343,9 @@ func c10GenLoop(t *rapid.T) c10Scenario {
 		if len(nets) == 1 && rapid.IntRange(0, 2).Draw(t, "second") == 0 {
 			nets = append(nets, c10GenNet(t))
 		}
-		s.Pods = append(s.Pods, c10PodSpec{Nets: nets})
+		// a pod without the pod-eni annotation is served in CRD mode or on the exclusive-ENI node only
+		noAnno := rapid.IntRange(0, 2).Draw(t, "noanno") == 0
+		s.Pods = append(s.Pods, c10PodSpec{Nets: nets, NoAnno: noAnno})
 		state[i] = "absent"
 	}
 	faulty := rapid.IntRange(0, 3).Draw(t, "faulty") // 0,1: no faults, 2: few, 3: many
@@ -370,12 +372,36 @@ func c10GenLoop(t *rapid.T) c10Scenario {
 			return c10Nth{Kind: rapid.SampledFrom([]string{"Delete", "Delete", "Detach"}).Draw(t, "nthkind"), N: rapid.IntRange(1, 6).Draw(t, "nth")}
 		}), 0, 4).Draw(t, "nthfail")
 	}
+	podNode := make([]int, np)
+	nodeMissing := make([]bool, c10Nodes)
+	// Node objects go missing only in a third of the histories (it stalls both controllers)
+	nodeChurn := rapid.IntRange(0, 2).Draw(t, "nodechurn") == 0
 	for _, r := range raw {
 		kinds := c10KindsByState[state[r.P]]
 		op := c10Op{P: r.P, K: kinds[r.KI%len(kinds)]}
+		if op.K == "node" && !nodeChurn {
+			op.K = "rr"
+		}
 		switch op.K {
+		case "node":
+			// the Node object of the pod's node (or a drawn node) goes missing / comes back
+			n := r.N
+			if state[op.P] != "absent" {
+				n = podNode[op.P]
+			}
+			if nodeMissing[n] {
+				op.K = "nodeback"
+			} else {
+				op.K = "nodegone"
+			}
+			nodeMissing[n] = !nodeMissing[n]
+			op.N = n
 		case "create":
 			op.N = r.N
+			if s.Pods[op.P].NoAnno && r.KI/16%4 != 0 {
+				op.N = 2
+			}
+			podNode[op.P] = op.N
 			state[op.P] = "alive"
 		case "gone":
 			state[op.P] = "absent"
